@@ -50,9 +50,11 @@ class T2TSim(SimTag):
     """NFC Forum Type 2 Tag: READ (30h, 16 bytes, roll-over at the end of memory), WRITE (A2h),
     SECTOR SELECT (C2h FFh + passive ack) when more than 256 pages."""
 
-    def __init__(self, mem, oneway=(), uid=None):
+    def __init__(self, mem, oneway=(), uid=None, version=None):
         SimTag.__init__(self)
         assert len(mem) % 4 == 0 and len(mem) >= 16
+        self.version = version   # None: plain tag (unknown commands mute it); bytes: answer to GET_VERSION (60h),
+        #                          b'\x00' = NAK to GET_VERSION as NTAG203 does
         self.mem = bytearray(mem)
         self.npages = len(mem) // 4
         self.readonly = set(range(0, 10))
@@ -95,6 +97,10 @@ class T2TSim(SimTag):
             self.changing()
             self.store(4 * page, data[2:6])
             return bytearray(b"\x0A")
+        if self.version is not None and data == b"\x60":
+            return bytearray(self.version)
+        if self.version is not None and data == b"\x1A\x00":
+            return bytearray(b"\x00")
         if data == b"\xC2\xFF":
             if self.npages > 256:
                 self.pending_sector = True
